@@ -73,6 +73,13 @@ def _model_acts(acts):
   return out
 
 
+def _alias_risk(acts):
+  """per output-to-controller action of the list: does anything that can rewrite the very same packet object
+  run later (a rewrite further down the list), or does a second buffer id of the same list share the packet?"""
+  idx = [i for i, a in enumerate(acts) if a[0] == "ctl"]
+  return [len(idx) > 1 or any(a[0] in ("set_dl_dst", "set_vlan_vid") for a in acts[i + 1:]) for i in idx]
+
+
 def _split_bad(acts):
   """(actions before the first action the switch cannot execute, whether there is one)"""
   for i, a in enumerate(acts):
@@ -93,6 +100,7 @@ class _Run(object):
     self.msl = case["miss_send_len"]
     self.sw = world.add_switch(DPID, ports=len(PORTS), max_buffers=self.maxb, miss_send_len=self.msl)
     self.pool = BufferPool(self.maxb)
+    self.risk = {}            # buffer id -> its packet object may have been rewritten after it was buffered
     self.flows = {}           # slot -> action list
     self.xid = 100
     self.excs = []
@@ -159,7 +167,7 @@ class _Run(object):
     return pins
 
   # ---- the packet-in contract
-  def judge_packet_in(self, m, frame, in_port, cfg_len, kind, using=None):
+  def judge_packet_in(self, m, frame, in_port, cfg_len, kind, using=None, risk=False):
     """Returns True when the id that is being used was handed out again by this packet-in."""
     pool = self.pool
     bid = m["buffer_id"]
@@ -196,6 +204,7 @@ class _Run(object):
         reused_using = True
         self.out.label("pin-reuses-id-being-used")
       pool.store(bid, frame, in_port)
+      self.risk[bid] = risk
       occupied = len(pool.out) - (1 if (using is not None and using in pool.out and not reused_using) else 0)
       if occupied > self.maxb:
         self.fail("pool-bound", "%s: %d packets are stored, the switch advertises %d buffers" % (kind, occupied, self.maxb))
@@ -253,8 +262,9 @@ class _Run(object):
     pins = self.split_msgs(self.recv(kind), kind)
     if len(pins) != len(want):
       self.fail("packet-in-count", "%s: %d packet-ins for a frame that calls for %d" % (kind, len(pins), len(want)), kind=kind)
-    for m, (cfg, fr) in zip(pins, want):
-      self.judge_packet_in(m, fr, port, cfg, kind)
+    risks = _alias_risk(acts) if acts is not None else [False]
+    for m, (cfg, fr), risk in zip(pins, want, risks):
+      self.judge_packet_in(m, fr, port, cfg, kind, risk=risk)
 
   def use_buffer(self, op, via):
     pool = self.pool
@@ -292,6 +302,8 @@ class _Run(object):
         self.fail("bogus-id-packet-in", "%s with buffer id %d (%s, not outstanding) produced a packet-in" % (via, bid, how), via=via, how=how)
       return
     frame, in_port = known
+    was_risky = bool(self.risk.get(bid))
+    aliased = "yes" if was_risky else "no"
     want_emits, want_ctl = expected_outputs(_model_acts(prefix), frame, in_port, PORTS)
     if any(a[0] in ("set_dl_dst", "set_vlan_vid") for a in prefix):
       self.out.label("use-with-rewrite")
@@ -313,7 +325,7 @@ class _Run(object):
         return
       if not as_expected:
         self.fail("use-emission", "%s with buffer %d (%s; frame of %d bytes from port %d) through %r emitted %s and %d packet-ins; expected nothing, or %s and %d packet-ins" % (
-            via, bid, how, len(frame), in_port, acts, _brief(emitted), len(pins), _brief(want_emits), len(want_ctl)), what=_what_differs(emitted, want_emits))
+            via, bid, how, len(frame), in_port, acts, _brief(emitted), len(pins), _brief(want_emits), len(want_ctl)), what=_what_differs(emitted, want_emits), aliased=aliased)
         pool.forget(bid)
         pool.limbo.pop(bid, None)
         return
@@ -322,7 +334,7 @@ class _Run(object):
     else:
       if emitted != want_emits:
         self.fail("use-emission", "%s with outstanding buffer %d (frame of %d bytes from port %d) through %r emitted %s, expected %s" % (
-            via, bid, len(frame), in_port, acts, _brief(emitted), _brief(want_emits)), what=_what_differs(emitted, want_emits))
+            via, bid, len(frame), in_port, acts, _brief(emitted), _brief(want_emits)), what=_what_differs(emitted, want_emits), aliased=aliased)
       if len(pins) != len(want_ctl):
         self.fail("packet-in-count", "%s: %d packet-ins for %d controller actions" % (where, len(pins), len(want_ctl)), kind="use")
     # the packet went through the actions: the id is consumed by this use
@@ -330,9 +342,9 @@ class _Run(object):
       pool.out[bid] = limbo          # it evidently was still stored
       pool.limbo.pop(bid, None)
     again = False
-    for m, (cfg, fr) in zip(pins, want_ctl):
+    for m, (cfg, fr), risk in zip(pins, want_ctl, _alias_risk(prefix)):
       self.out.label("use-with-controller-action")
-      again |= self.judge_packet_in(m, fr, in_port, cfg, "use", using=bid)
+      again |= self.judge_packet_in(m, fr, in_port, cfg, "use", using=bid, risk=risk or was_risky)
     if not again:
       pool.release(bid)
 
